@@ -142,15 +142,26 @@ fn pairwise(lat: &[Point], rng: &mut Rng) -> Vec<Point> {
 }
 
 // ------------------------------------------------------------------------------------ configuration
-fn free_udp_port() -> u16 {
-    let s = std::net::UdpSocket::bind("127.0.0.1:0").unwrap();
-    s.local_addr().unwrap().port()
+/// Fixed ports for the options that need one (single-port UDP mux, the ICE-TCP listener) come from BELOW the kernel's
+/// ephemeral range (32768..60999), handed out by a process-wide counter and probed once. A probe on port 0 is released
+/// before the endpoint binds the port itself, and with 12..32 points in flight another point's ephemeral socket
+/// sometimes took it in between: that end then gathered no candidate at all and the pair sat in New/New until the
+/// timeout (about 1 fixed-port point in 200, seen as `answer candidates=0` in a first attempt; it connected on the
+/// retry). Ports of this range are never chosen by the kernel and never handed out twice while in use.
+static NEXT_FIXED_PORT: AtomicUsize = AtomicUsize::new(0);
+fn fixed_port(tcp: bool) -> u16 {
+    for _ in 0..12000 {
+        // (start offset by the process id: two harness processes at once do not walk the same ports in step)
+        let port = 20000 + ((std::process::id() as usize * 997 + NEXT_FIXED_PORT.fetch_add(1, Ordering::SeqCst)) % 12000) as u16;
+        let free = if tcp { std::net::TcpListener::bind(("127.0.0.1", port)).is_ok() } else { std::net::UdpSocket::bind(("127.0.0.1", port)).is_ok() };
+        if free { return port; }
+    }
+    // nothing free in the private range (not seen): fall back to a probe on port 0
+    if tcp { std::net::TcpListener::bind("127.0.0.1:0").unwrap().local_addr().unwrap().port() }
+    else { std::net::UdpSocket::bind("127.0.0.1:0").unwrap().local_addr().unwrap().port() }
 }
-
-fn free_tcp_port() -> u16 {
-    let s = std::net::TcpListener::bind("127.0.0.1:0").unwrap();
-    s.local_addr().unwrap().port()
-}
+fn free_udp_port() -> u16 { fixed_port(false) }
+fn free_tcp_port() -> u16 { fixed_port(true) }
 
 fn make_cfg(p: &Point, is_s: bool, is_answerer: bool) -> RtcConfiguration {
     let mut c = RtcConfiguration::default();
@@ -964,7 +975,9 @@ fn main() {
             if (!l.is_empty() || !rt.is_empty()) && known_class(&p, &r, &rt).is_none() && kind != "repeat" && std::env::var("C10_NORETRY").is_err()
                 && !state_fact(&l) {
                 // retry once before reporting (sockets / timers are runtime), with short timeouts
-                first = Some(format!("{} [{}]", l.iter().chain(rt.iter()).cloned().collect::<Vec<_>>().join("; "), r.diag.clone().unwrap_or_default()));
+                // (candidate counts: an end that lost its fixed port to another socket gathers nothing and shows 0 here)
+                first = Some(format!("{} [{}] offer candidates={} answer candidates={}", l.iter().chain(rt.iter()).cloned().collect::<Vec<_>>().join("; "), r.diag.clone().unwrap_or_default(),
+                                     r.offer_sdp.matches("a=candidate").count(), r.answer_sdp.matches("a=candidate").count()));
                 let tmo2 = Timeouts { answer_delay: tmo.answer_delay, scn: tmo.scn, ..retry_tmo.clone() };
                 let r2 = run_blocking(p, &tmo2, rt_workers);
                 tries = 2;
